@@ -293,9 +293,11 @@ impl CryptoResolver for RecResolver {
         if self.hide & HIDE_RNG != 0 {
             return None;
         }
+        // the wrapped resolver decides whether an RNG exists at all; a scripted stream only replaces its bytes
+        let real = self.inner.resolve_rng()?;
         let inst = self.ctl.nrng.fetch_add(1, Ordering::Relaxed);
         let inner = match self.rng {
-            RngMode::Os => Some(self.inner.resolve_rng()?),
+            RngMode::Os => Some(real),
             _ => None,
         };
         Some(Box::new(RecRng {
@@ -339,9 +341,59 @@ impl CryptoResolver for RecResolver {
     }
 }
 
+/// a resolver that hides some primitive kinds of its inner resolver
+pub struct HideResolver {
+    inner: BoxedCryptoResolver,
+    hide: u8,
+}
+
+impl CryptoResolver for HideResolver {
+    fn resolve_rng(&self) -> Option<Box<dyn Random>> {
+        if self.hide & HIDE_RNG != 0 {
+            None
+        } else {
+            self.inner.resolve_rng()
+        }
+    }
+    fn resolve_dh(&self, choice: &DHChoice) -> Option<Box<dyn Dh>> {
+        if self.hide & HIDE_DH != 0 {
+            None
+        } else {
+            self.inner.resolve_dh(choice)
+        }
+    }
+    fn resolve_hash(&self, choice: &HashChoice) -> Option<Box<dyn Hash>> {
+        if self.hide & HIDE_HASH != 0 {
+            None
+        } else {
+            self.inner.resolve_hash(choice)
+        }
+    }
+    fn resolve_cipher(&self, choice: &CipherChoice) -> Option<Box<dyn Cipher>> {
+        if self.hide & HIDE_CIPHER != 0 {
+            None
+        } else {
+            self.inner.resolve_cipher(choice)
+        }
+    }
+    #[cfg(feature = "hfs")]
+    fn resolve_kem(&self, choice: &KemChoice) -> Option<Box<dyn Kem>> {
+        self.inner.resolve_kem(choice)
+    }
+}
+
 /// `D`, `R` (ring preferred, default as fallback), `DR` (default preferred, ring fallback),
-/// `Ronly`; optional suffixes `-rng`, `-dh`, `-cipher`, `-hash` hide one primitive kind.
+/// `Ronly`; optional suffixes `-rng`, `-dh`, `-cipher`, `-hash` hide one primitive kind;
+/// `fb(<a>|<b>)` = FallbackResolver(a, b) of two such specs (one level, b may itself be fb(..)).
 pub fn base_resolver(spec: &str) -> Result<(BoxedCryptoResolver, u8), String> {
+    if let Some(inner) = spec.strip_prefix("fb(").and_then(|x| x.strip_suffix(')')) {
+        let (a, b) = inner.split_once('|').ok_or("fb needs a|b")?;
+        let (ra, ha) = base_resolver(a)?;
+        let (rb, hb) = base_resolver(b)?;
+        let ra: BoxedCryptoResolver = Box::new(HideResolver { inner: ra, hide: ha });
+        let rb: BoxedCryptoResolver = Box::new(HideResolver { inner: rb, hide: hb });
+        return Ok((Box::new(FallbackResolver::new(ra, rb)), 0));
+    }
     let mut parts = spec.split('-');
     let base = parts.next().unwrap_or("");
     let mut hide = 0;
